@@ -77,13 +77,25 @@ def updRule (st : St) (it : RuleItem) : Option St :=
   match st.decls with
   | .entity e :: r => some { st with decls := .entity { e with rules := addItem e.rules it } :: r }
   | .type t :: r => some { st with decls := .type { t with rules := addItem t.rules it } :: r }
+  | .func f :: r => some { st with decls := .func { f with body := addItem f.body it } :: r }
   | _ => none
 
-def addRule (st : St) (n : String) (l : Nat) : Option St :=
+/-- `isWhere`: a domain rule (`rule` line) as opposed to another expression context (`expr` line: DERIVE initialiser, aggregate
+    bound, statement of an algorithm) -/
+def addRule (st : St) (n : String) (l : Nat) (isWhere : Bool := true) : Option St :=
   match st.decls with
-  | .entity e :: r => some { st with decls := .entity { e with rules := e.rules ++ [⟨n, l, []⟩] } :: r }
-  | .type t :: r => some { st with decls := .type { t with rules := t.rules ++ [⟨n, l, []⟩] } :: r }
+  | .entity e :: r => some { st with decls := .entity { e with rules := e.rules ++ [⟨n, l, [], isWhere⟩] } :: r }
+  | .type t :: r => some { st with decls := .type { t with rules := t.rules ++ [⟨n, l, [], isWhere⟩] } :: r }
+  | .func f :: r => some { st with decls := .func { f with body := f.body ++ [⟨n, l, [], false⟩] } :: r }
   | _ => none
+
+def addLocal (st : St) (n : String) : Option St :=
+  match st.decls with
+  | .func f :: r => some { st with decls := .func { f with locals := f.locals ++ [n] } :: r }
+  | _ => none
+
+def parseAlgKind : String → Option AlgKind
+  | "function" => some .function | "rule" => some .rule | "constant" => some .constant | _ => none
 
 def updIface (st : St) (it : Item) : Option St :=
   match st.ifaces with
@@ -181,6 +193,11 @@ def handle (st : St) (line : String) : St × String :=
       let l ← l.toNat?; let t ← parseTypeRef t; let fl ← fl.toNat?
       updEntity st fun e => { e with attrs := e.attrs ++ [⟨n, l, t, some (fn, fl), none⟩] })
   | ["rule", n, l] => ok (l.toNat? >>= fun l => addRule st n l)
+  | ["expr", n, l] => ok (l.toNat? >>= fun l => addRule st n l false)
+  | ["local", n] => ok (addLocal st n)
+  | ["alg", k, n, l, np] => ok (do
+      let k ← parseAlgKind k; let l ← l.toNat?; let np ← np.toNat?
+      pure { st with decls := .func ⟨n, l, np, k, [], []⟩ :: st.decls })
   | ["bareattr", n] => ok (updRule st (.bareAttr n))
   | ["badgroup", n] => ok (updRule st (.badGroup n))
   | ["call", fn, argc] => ok (argc.toNat? >>= fun a => updRule st (.call fn a))
@@ -197,7 +214,7 @@ def handle (st : St) (line : String) : St × String :=
       pure { st with decls := .type ⟨n, l, .select it, []⟩ :: st.decls })
   | ["func", n, l, k] => ok (do
       let l ← l.toNat?; let k ← k.toNat?
-      pure { st with decls := .func ⟨n, l, k⟩ :: st.decls })
+      pure { st with decls := .func ⟨n, l, k, .function, [], []⟩ :: st.decls })
   | ["syntax", k, n, l] => ok (l.toNat?.map fun l => { st with decls := .syntaxError k n l :: st.decls })
   | ["end"] => (st, "ok")
   | ["run", tool, sws] =>
